@@ -188,3 +188,170 @@ pub proof fn lemma_same_secret_side(bases: Seq<Integer>, msgs: Seq<CL03Message>,
     assert(w * 1 == w);
     lemma_cong_mod(resp_prod(bases, omega, idx, n, k) * pow_mod(b, mu, n), n);
 }
+
+/// verifier's recomputation in the single-base "same secret" / "larger interval" protocols:
+///   g^(omega + c x) * h^(mu + c r) * e^(-c)  ==  g^omega * h^mu   (mod n, both sides reduced)   when e == g^x h^r (mod n) is a unit
+pub proof fn lemma_ss_side(g: int, h: int, x: int, r: int, omega: int, mu: int, c: int, e: int, n: int)
+    requires
+        n > 0, invertible(g, n), invertible(h, n), invertible(e, n),
+        cong(e, pow_mod(g, x, n) * pow_mod(h, r, n), n),
+    ensures
+        (pow_mod(g, omega + c * x, n) * pow_mod(h, mu + c * r, n) * pow_mod(e, -1 * c, n)) % n == (pow_mod(g, omega, n) * pow_mod(h, mu, n)) % n,
+{
+    let cv = (pow_mod(g, x, n) * pow_mod(h, r, n)) % n;
+    let w = (pow_mod(g, omega, n) * pow_mod(h, mu, n)) % n;
+    let lhs0 = pow_mod(g, omega + c * x, n) * pow_mod(h, mu + c * r, n);
+    assert(e % n == cv);
+    ax_pow_mod_base_mod(e, -1 * c, n);
+    lemma_mod_twice(pow_mod(g, x, n) * pow_mod(h, r, n), n);
+    ax_pow_mod_base_mod(cv, -1 * c, n);
+    assert(pow_mod(e, -1 * c, n) == pow_mod(cv, -1 * c, n));
+    ax_gcd_mod(e, n);
+    assert(invertible(cv, n));
+    let (cc, ci) = (pow_mod(cv, c, n), pow_mod(cv, -1 * c, n));
+    lemma_two_secret_response(g, h, x, r, omega, mu, c, n);
+    assert(cong(lhs0, w * cc, n));
+    lemma_cong_mul(lhs0, w * cc, ci, ci, n);
+    lemma_inverse_cancel(cv, c, n);
+    lemma_cong_mul(w, w, ci * cc, 1, n);
+    assert((w * cc) * ci == w * (ci * cc)) by (nonlinear_arith);
+    assert(w * 1 == w);
+    lemma_cong_mod(pow_mod(g, omega, n) * pow_mod(h, mu, n), n);
+    lemma_mod_twice(pow_mod(g, omega, n) * pow_mod(h, mu, n), n);
+}
+
+/// F = g^x h^{r2} % n;  F^x * h^(r1 - r2 x)  ==  g^(x x) * h^(r1)   (mod n)      (proof of square: E = F^x h^{r3})
+pub proof fn lemma_square_commit(g: int, h: int, x: int, r1: int, r2: int, n: int)
+    requires n > 0, invertible(g, n), invertible(h, n),
+    ensures
+        cong(pow_mod((pow_mod(g, x, n) * pow_mod(h, r2, n)) % n, x, n) * pow_mod(h, r1 - r2 * x, n), pow_mod(g, x * x, n) * pow_mod(h, r1, n), n),
+{
+    let (gx, hr2) = (pow_mod(g, x, n), pow_mod(h, r2, n));
+    ax_gcd_pow_mod(g, x, n);
+    ax_gcd_pow_mod(h, r2, n);
+    lemma_pow_of_commit(gx, hr2, x, n);
+    ax_pow_mod_mul(g, x, x, n);
+    ax_pow_mod_mul(h, r2, x, n);
+    // h^(r2 x) * h^(r1 - r2 x) == h^r1
+    ax_pow_mod_add(h, r2 * x, r1 - r2 * x, n);
+    assert(r2 * x + (r1 - r2 * x) == r1);
+    let (gxx, hr2x, hr3, hr1) = (pow_mod(g, x * x, n), pow_mod(h, r2 * x, n), pow_mod(h, r1 - r2 * x, n), pow_mod(h, r1, n));
+    lemma_cong_mod(hr2x * hr3, n);
+    assert(cong(hr2x * hr3, hr1, n));
+    // F^x * h^r3 == (gxx * hr2x) * hr3 == gxx * (hr2x * hr3) == gxx * hr1
+    lemma_cong_mul(pow_mod((gx * hr2) % n, x, n), gxx * hr2x, hr3, hr3, n);
+    assert((gxx * hr2x) * hr3 == gxx * (hr2x * hr3)) by (nonlinear_arith);
+    lemma_cong_mul(gxx, gxx, hr2x * hr3, hr1, n);
+}
+
+/// a commitment g^x h^r % n with unit bases is a unit
+pub proof fn lemma_commit_unit(g: int, h: int, x: int, r: int, n: int)
+    requires n > 0, invertible(g, n), invertible(h, n),
+    ensures invertible((pow_mod(g, x, n) * pow_mod(h, r, n)) % n, n),
+{
+    ax_gcd_pow_mod(g, x, n);
+    ax_gcd_pow_mod(h, r, n);
+    ax_gcd_mul(pow_mod(g, x, n), pow_mod(h, r, n), n);
+    ax_gcd_mod(pow_mod(g, x, n) * pow_mod(h, r, n), n);
+}
+
+/// (g^x1 h^r1 % n) * (g^x2 h^r2 % n)  ==  g^(x1+x2) * h^(r1+r2)   (mod n)
+pub proof fn lemma_commit_mul(g: int, h: int, x1: int, r1: int, x2: int, r2: int, n: int)
+    requires n > 0, invertible(g, n), invertible(h, n),
+    ensures cong(((pow_mod(g, x1, n) * pow_mod(h, r1, n)) % n) * ((pow_mod(g, x2, n) * pow_mod(h, r2, n)) % n), pow_mod(g, x1 + x2, n) * pow_mod(h, r1 + r2, n), n),
+{
+    let (a1, b1, a2, b2) = (pow_mod(g, x1, n), pow_mod(h, r1, n), pow_mod(g, x2, n), pow_mod(h, r2, n));
+    lemma_cong_mod(a1 * b1, n);
+    lemma_cong_mod(a2 * b2, n);
+    lemma_cong_mul((a1 * b1) % n, a1 * b1, (a2 * b2) % n, a2 * b2, n);
+    ax_pow_mod_add(g, x1, x2, n);
+    ax_pow_mod_add(h, r1, r2, n);
+    lemma_cong_mod(a1 * a2, n);
+    lemma_cong_mod(b1 * b2, n);
+    lemma_cong_mul(a1 * a2, pow_mod(g, x1 + x2, n), b1 * b2, pow_mod(h, r1 + r2, n), n);
+    assert((a1 * b1) * (a2 * b2) == (a1 * a2) * (b1 * b2)) by (nonlinear_arith);
+}
+
+/// Boudot tolerance proof, side a:  with E_a_1 = g^{s} h^{ra1} % n, E_a_2 = g^{x2} h^{ra2} % n, s + x2 = x - aa, ra1 + ra2 = r and
+/// e == g^x h^r (mod n):   E_a_2 == divm(divm(e, g^aa), E_a_1)
+pub proof fn lemma_tol_side_a(g: int, h: int, x: int, r: int, aa: int, s: int, x2: int, ra1: int, ra2: int, e: int, n: int)
+    requires
+        n > 0, invertible(g, n), invertible(h, n), s + x2 == x - aa, ra1 + ra2 == r,
+        cong(e, pow_mod(g, x, n) * pow_mod(h, r, n), n),
+    ensures ({
+        let e1 = (pow_mod(g, s, n) * pow_mod(h, ra1, n)) % n;
+        let e2 = (pow_mod(g, x2, n) * pow_mod(h, ra2, n)) % n;
+        e2 == divm_spec(divm_spec(e, pow_mod(g, aa, n), n), e1, n)
+    }),
+{
+    let e1 = (pow_mod(g, s, n) * pow_mod(h, ra1, n)) % n;
+    let e2 = (pow_mod(g, x2, n) * pow_mod(h, ra2, n)) % n;
+    let pa = pow_mod(g, aa, n);
+    let y = (e1 * e2) % n;
+    ax_gcd_pow_mod(g, aa, n);
+    lemma_commit_unit(g, h, s, ra1, n);
+    // e1 * e2 == g^(x - aa) h^r ;  times g^aa == g^x h^r == e
+    lemma_commit_mul(g, h, s, ra1, x2, ra2, n);
+    let (gxa, hr) = (pow_mod(g, x - aa, n), pow_mod(h, r, n));
+    lemma_cong_mod(e1 * e2, n);
+    assert(cong(y, gxa * hr, n));
+    lemma_cong_mul(y, gxa * hr, pa, pa, n);
+    ax_pow_mod_add(g, x - aa, aa, n);
+    assert((x - aa) + aa == x);
+    lemma_cong_mod(gxa * pa, n);
+    lemma_cong_mul(gxa * pa, pow_mod(g, x, n), hr, hr, n);
+    assert((gxa * hr) * pa == (gxa * pa) * hr) by (nonlinear_arith);
+    assert(cong(y * pa, e, n));
+    ax_divm_unique(e, pa, n, y);
+    // e2 * e1 == y == e_a (already reduced)
+    let e_a = divm_spec(e, pa, n);
+    assert((e2 * e1) % n == e_a % n) by {
+        assert(e2 * e1 == e1 * e2) by (nonlinear_arith);
+        lemma_mod_twice(e1 * e2, n);
+    }
+    ax_divm_unique(e_a, e1, n, e2);
+}
+
+/// side b:  E_b_1 = g^{s} h^{rb1} % n, E_b_2 = g^{x2} h^{rb2} % n, s + x2 = bb - x, rb1 + rb2 = -r:   E_b_2 == divm(divm(g^bb, e), E_b_1)
+pub proof fn lemma_tol_side_b(g: int, h: int, x: int, r: int, bb: int, s: int, x2: int, rb1: int, rb2: int, e: int, n: int)
+    requires
+        n > 0, invertible(g, n), invertible(h, n), invertible(e, n), s + x2 == bb - x, rb1 + rb2 == -r,
+        cong(e, pow_mod(g, x, n) * pow_mod(h, r, n), n),
+    ensures ({
+        let e1 = (pow_mod(g, s, n) * pow_mod(h, rb1, n)) % n;
+        let e2 = (pow_mod(g, x2, n) * pow_mod(h, rb2, n)) % n;
+        e2 == divm_spec(divm_spec(pow_mod(g, bb, n), e, n), e1, n)
+    }),
+{
+    let e1 = (pow_mod(g, s, n) * pow_mod(h, rb1, n)) % n;
+    let e2 = (pow_mod(g, x2, n) * pow_mod(h, rb2, n)) % n;
+    let pb = pow_mod(g, bb, n);
+    let y = (e1 * e2) % n;
+    lemma_commit_unit(g, h, s, rb1, n);
+    lemma_commit_mul(g, h, s, rb1, x2, rb2, n);
+    let (gxb, hmr) = (pow_mod(g, bb - x, n), pow_mod(h, -r, n));
+    lemma_cong_mod(e1 * e2, n);
+    assert(cong(y, gxb * hmr, n));
+    // y * e == g^(bb - x) h^(-r) * g^x h^r == g^bb
+    let (gx, hr) = (pow_mod(g, x, n), pow_mod(h, r, n));
+    lemma_cong_mul(y, gxb * hmr, e, gx * hr, n);
+    ax_pow_mod_add(g, bb - x, x, n);
+    assert((bb - x) + x == bb);
+    ax_pow_mod_add(h, -r, r, n);
+    assert(-r + r == 0);
+    ax_pow_mod_one(h, n);
+    lemma_cong_mod(gxb * gx, n);
+    lemma_cong_mod(hmr * hr, n);
+    lemma_cong_mod(1, n);
+    lemma_cong_mul(gxb * gx, pb, hmr * hr, 1, n);
+    assert((gxb * hmr) * (gx * hr) == (gxb * gx) * (hmr * hr)) by (nonlinear_arith);
+    assert(pb * 1 == pb);
+    assert(cong(y * e, pb, n));
+    ax_divm_unique(pb, e, n, y);
+    let e_b = divm_spec(pb, e, n);
+    assert((e2 * e1) % n == e_b % n) by {
+        assert(e2 * e1 == e1 * e2) by (nonlinear_arith);
+        lemma_mod_twice(e1 * e2, n);
+    }
+    ax_divm_unique(e_b, e1, n, e2);
+}
